@@ -923,7 +923,8 @@ func verifLenIsHeaderPlusLength(p *PathAttribute) bool {
 //@ props C08 C04
 //@ func (*OptionParameterCapability).Serialize
 //@   requires o != nil
-//@   claims at-return
+//@   claims at-return inv-init inv-keep
+//@   loop 0 invariant len(buf) >= 2
 //@   at-return requires ret1 == nil ==> len(ret0) >= 2 && int(ret0[1]) == len(ret0) - 2
 //@ func (*BGPOpen).Serialize
 //@   requires msg != nil
